@@ -6,6 +6,7 @@ import (
 	"errors"
 	"fmt"
 	"math"
+	"regexp"
 	"strings"
 	"sync"
 	"sync/atomic"
@@ -22,7 +23,8 @@ import (
 func TestMain(m *testing.M) { ev.Main(m, "C20") }
 
 // A case: a breaker configuration and a sequence of downstream outcomes.
-// Outcomes: 'o' success, 'e' error, 'p' panic, 's' sleep past the recovery time (timed mode only).
+// Outcomes: 'o' success, 'e' error, 'p' panic, 's' sleep past the recovery time, 'h' sleep a little more than
+// half of it (timed mode only).
 type Case struct {
 	Threshold uint64 `json:"threshold"`
 	Recovery  string `json:"recovery"` // "zero" | "inf" | "timed"
@@ -125,6 +127,12 @@ func run(c Case) (crossed bool, problem string) {
 		o := c.Seq[i]
 		if o == 's' {
 			time.Sleep(timedRecovery + 25*time.Millisecond)
+			continue
+		}
+		if o == 'h' {
+			// a little more than half the recovery time: two of them with a rejected call in between
+			// pass the recovery time of the last real failure, not of the rejected call
+			time.Sleep(timedRecovery/2 + 10*time.Millisecond)
 			continue
 		}
 		d.outcome, d.token = o, i
@@ -286,7 +294,7 @@ func countFails(s string) int {
 	for i := 0; i < len(s); i++ {
 		if s[i] == 'o' {
 			cur = 0
-		} else if s[i] != 's' {
+		} else if s[i] != 's' && s[i] != 'h' {
 			cur++
 			if cur > best {
 				best = cur
@@ -323,11 +331,12 @@ func TestTimed(t *testing.T) {
 			Threshold: rapid.Uint64Range(0, 3).Draw(rt, "threshold"),
 			Recovery:  "timed",
 			Mock:      rapid.Bool().Draw(rt, "mock"),
-			Seq:       rapid.StringOfN(rapid.SampledFrom([]rune("oeeppes")), 2, 14, -1).Draw(rt, "seq"),
+			Seq:       rapid.StringOfN(rapid.SampledFrom([]rune("oeeppeshh")), 2, 14, -1).Draw(rt, "seq"),
 		}
 		ev.S.Begin("timed", c.String())
 		crossed, problem := run(c)
-		ev.S.Case("timed", c.String(), crossed && strings.Contains(c.Seq, "s"), "timed")
+		probed := regexp.MustCompile(`h[oep]+h[oep]`).MatchString(c.Seq)
+		ev.S.Case("timed", c.String(), crossed && strings.ContainsAny(c.Seq, "sh"), "timed", fmt.Sprintf("timed-call-between-half-sleeps=%v", probed && crossed))
 		if problem != "" {
 			report(rt, "timed", "TestTimed", c, problem)
 		}
